@@ -287,6 +287,7 @@ type totalWorker struct {
 	classes map[string]int64
 	evals   int64
 	frame   []byte // canary-framed backing array
+	placed  int    // number of inputs placed so far
 	sample  [1]metrics.Sample
 }
 
@@ -308,6 +309,13 @@ func (w *totalWorker) place(in []byte) []byte {
 		w.frame[canary+n+i] = 0xC3
 	}
 	copy(w.frame[canary:], in)
+	w.placed++
+	if w.placed%2 == 0 {
+		// every other input is a slice WITH spare capacity (a sub-slice of a larger buffer, as the payload of a nested
+		// field or a pooled buffer is): what lies behind len() is not input either, and reading it does not panic
+		w.classes["input-with-spare-capacity"]++
+		return w.frame[canary : canary+n : canary+n+canary]
+	}
 	return w.frame[canary : canary+n : canary+n]
 }
 
@@ -369,6 +377,9 @@ func inputClass(b []byte, off int) string {
 // measure: also judge heap allocation of the call.
 func (w *totalWorker) one(m *method, in, backup []byte, d *csproto.Decoder, fast bool, measure bool, family string) {
 	off := d.Offset()
+	if off < 0 || off > len(in) {
+		return // an earlier call left the cursor outside the input (reported there); nothing more to judge with this decoder
+	}
 	w.evals++
 	args := &callArgs{nested: &stubNested{}}
 	var before uint64
@@ -512,6 +523,11 @@ func runTotal(cfg *config, res *monitor.Result) {
 }
 
 func (w *totalWorker) exhaustOne(s []byte) {
+	w.exhaustPlaced(s)
+	w.exhaustPlaced(s) // the other capacity mode
+}
+
+func (w *totalWorker) exhaustPlaced(s []byte) {
 	in := w.place(s)
 	backup := append([]byte(nil), s...)
 	w.cfg.progress.Set("exhaust", monitor.Hex(s))
